@@ -1,5 +1,5 @@
 (* C04 -- payload and line-length limits are enforced exactly and before buffering. *)
-From MH Require Import proofs.Limits_proofs proofs.Impl_proofs proofs.ServerRead_proofs.
+From MH Require Import proofs.Limits_proofs proofs.Impl_proofs proofs.ServerRead_proofs proofs.ServerExpect_proofs.
 
 (* at the blank line that ends a header block, for EVERY limit L (0, 2^32-1 and beyond included)
    and every declared length: size-limit error reporting (L, n) iff n > L -- and the decision needs
@@ -99,6 +99,32 @@ Theorem C04_reply_names_both : forall l n,
         ++ B" allowed by server." ++ [LF] ++ B"All previous unanswered requests will be dropped."" }").
 Proof. exact reply_names_both. Qed.
 
+(* server clause, end to end: when the specification parser rejects the bytes of a read (RErr outs e, e.g.
+   SizeLimitExceeded L n at the blank line), polling while ready delivers to that client the 400 built from e
+   (C04_reply_names_both for the size error), after the interim responses due before it *)
+Theorem C04_server_400_delivered : forall BUF, (2 <= BUF)%nat -> N.of_nat BUF < U32_LIMIT ->
+  forall w toks fd x ph,
+  Inv BUF w toks -> Calm w -> alookup fd (w_conns w) = Some x -> CInv BUF (sc_conn x) ph -> sc_out x = false ->
+  k_tosrv (client_of w (sc_client x)) <> [] ->
+  let c := sc_conn x in
+  let t := k_tosrv (client_of w (sc_client x)) in
+  let d := firstn (read_amount 0 (BUF - length (c_win c)) (length t)) t in
+  exists n, match drive BUF n w [] with
+            | DQuiet w2 _ =>
+                ready_events w2 = [] /\
+                exists more, Forall server_generated more /\
+                  k_rx (client_of w2 (sc_client x)) =
+                  wire w x ++
+                  flat_map serialize (match runT BUF (c_pmax c) ph (c_win c ++ d) [] with
+                                      | RMore _ _ outs => conts_of outs
+                                      | RErr outs e => conts_of outs ++ [bad_request_response e]
+                                      | ROutOfFuel => []
+                                      end) ++ flat_map serialize more
+            | DOverflow => True
+            | DFuel => False
+            end.
+Proof. exact server_replies_delivered. Qed.
+
 Print Assumptions C04_size_iff.
 Print Assumptions C04_within_limit_accepted.
 Print Assumptions C04_body_bound.
@@ -107,3 +133,4 @@ Print Assumptions C04_unterminated_line_iff.
 Print Assumptions C04_transfer.
 Print Assumptions C04_server_transfer.
 Print Assumptions C04_reply_names_both.
+Print Assumptions C04_server_400_delivered.
